@@ -378,10 +378,20 @@ func init() {
 				} else {
 					proj = []string{}
 				}
+				// dispatched check lists of the targeted rule (rule 1 for file comments) and of one other rule
+				t := c.Rule
+				if t < 1 || t > len(checks) {
+					t = 1
+				}
+				o := 1
+				if t == 1 {
+					o = 2
+				}
+				crules, cl := []int{t, o}, [][]string{checks[t-1], checks[o-1]}
 				var m map[string]json.RawMessage
 				json.Unmarshal(in[ci], &m)
 				results[j] = map[string]any{"ev": "Run", "id": ci + 1, "scen": si + 1, "rule": c.Rule, "cmt": m["cmt"], "place": m["place"],
-					"prior": c.Prior, "pplace": m["pplace"], "eplace": m["eplace"], "basereports": basereps, "eol": c.Eol, "text": c.Text, "reports": reps, "rules": rules, "checks": checks, "bin": sampled, "proj": proj, "binproj": binproj}
+					"prior": c.Prior, "pplace": m["pplace"], "eplace": m["eplace"], "basereports": basereps, "eol": c.Eol, "text": c.Text, "reports": reps, "rules": rules, "crules": crules, "checks": cl, "bin": sampled, "proj": proj, "binproj": binproj}
 			})
 			for _, e := range errs {
 				if e != nil {
